@@ -804,6 +804,9 @@ func init() {
 			for _, x := range xs {
 				a := p.asRV(x)
 				p.mustValid(a, "Append")
+				if a.flag&flagRO != 0 {
+					panic(p.reflectPanic("reflect: reflect.Value.Set using value obtained using unexported field"))
+				}
 				if !p.assignable(a.t, st.Elem()) {
 					panic(p.reflectPanic("reflect.Set: value of type " + p.typeString(a.t) + " is not assignable to type " + p.typeString(st.Elem())))
 				}
